@@ -38,6 +38,18 @@ SearchViol(t) ==
        [] t.ret = "err" /\ AllOk(t) /\ ~Cancelled(t) -> {<<l, "SpuriousError">>}
        [] OTHER -> {}
 
+\* a search over partitions with two replicas in which the node asked first broke off in the middle of its answer:
+\* a loud failure, or - if the call is answered from the other replica after all - exactly the top k of what the
+\* partitions hold, each item once (nothing of the broken answer may be counted twice)
+FailoverViol(t) ==
+  LET all == SortSeq(Flatten(t.parts, DOMAIN t.parts), <)
+      n   == Min(t.k, Len(all))
+  IN CASE t.ret = "hang" -> {<<l, "Hang">>}
+       [] t.ret = "ok" ->
+            (IF Len(t.res) = n /\ \A j \in 1..n : t.res[j][2] = all[j] THEN {} ELSE {<<l, "WrongTopK">>})
+            \cup (IF \A a, b \in 1..Len(t.res) : a # b => t.res[a][1] # t.res[b][1] THEN {} ELSE {<<l, "DuplicateId">>})
+       [] OTHER -> {}
+
 SizeViol(t) ==
   CASE t.ret = "hang" -> {<<l, "Hang">>}
     [] t.ret = "ok" /\ ~AllOk(t) -> {<<l, "PartialSuccess">>}
@@ -57,7 +69,8 @@ PinfoViol(t) ==
 Init == l = 1 /\ viol = {}
 Step == /\ l <= Len(Trace) /\ l' = l + 1
         /\ LET t == Trace[l] IN
-           viol' = viol \cup (IF t.ev = "size" THEN SizeViol(t) ELSE IF t.ev = "pinfo" THEN PinfoViol(t) ELSE SearchViol(t))
+           viol' = viol \cup (IF t.ev = "size" THEN SizeViol(t) ELSE IF t.ev = "pinfo" THEN PinfoViol(t)
+                              ELSE IF t.ev = "failover" THEN FailoverViol(t) ELSE SearchViol(t))
 Spec == Init /\ [][Step]_vars
 Report == l = Len(Trace) + 1 => PrintT(<<"VIOL", ToJson([n |-> Len(Trace), v |-> viol])>>)
 =============================================================================
